@@ -12,6 +12,7 @@ real `mfront` executable of the hooks tree is run
   repeat      : the same command a second time in the `fresh` directory
                                                                    -> tree unchanged, targets.lst byte-identical
   after_others: directory in which 1..3 other inputs were generated first
+  stale_variant: directory in which a variant of the SAME input (same names, other floating-point literals) was generated first
                 -> every file of the baseline tree is byte-identical, targets.lst = union
 The input path is absolute and identical in all runs (it is the documented
 path-dependent field: #line directives / *_src symbols), so nothing is normalised.
@@ -198,6 +199,34 @@ def baseline(rel, ifaces, opts):
     return r
 
 
+_FLOAT = re.compile(r"(?<![\w.])(\d+\.\d*(?:[eE][+-]?\d+)?|\d+[eE][+-]?\d+)(?![\w.])")
+
+
+def src_text(rel):
+    return open(os.path.join(REPO, rel), errors="replace").read()
+
+
+def make_variant(src, v):
+    """the same input with every k-th floating-point literal changed (k = 1 + v % 4, first one at v % k): same names,
+    same files, other contents; None if the file holds no such literal"""
+    k = 1 + v % 4
+    state = {"i": 0, "n": 0}
+
+    def sub(m):
+        i = state["i"]
+        state["i"] += 1
+        if i % k != v % k:
+            return m.group(0)
+        try:
+            x = float(m.group(0))
+        except ValueError:
+            return m.group(0)
+        state["n"] += 1
+        return repr(x * 0.75 + 0.125)
+    out = _FLOAT.sub(sub, src)
+    return out if state["n"] and out != src else None
+
+
 def check_case(c):
     rel, ifaces, opts = c["file"], c["ifaces"], c["opts"]
     cmd = command(rel, ifaces, opts)
@@ -307,6 +336,37 @@ def check_case(c):
                     return Result(False, "C36.same_process.differs", "%s: generated together with %s in one process: %s" % (
                         cmd[1:], same, df[:4]))
                 classes.append("same_process.%d" % len(same))
+        # a stale OLDER VERSION of the same input ("previous runs"): a variant of the target (same names, every k-th
+        # floating-point literal changed) is generated first in the directory, whatever its exit status; the files then
+        # generated for the target must be those of a fresh directory (nothing may be kept from the previous run)
+        if ok_base and c.get("variant") is not None:
+            vsrc = make_variant(src_text(rel), int(c["variant"]))
+            if vsrc is None:
+                classes.append("stale_variant.no_literal")
+            else:
+                t5, d5 = newdir("stale")
+                tops.append(t5)
+                vdir = t5 + "-variant"
+                os.makedirs(vdir, exist_ok=True)
+                tops.append(vdir)
+                vp = os.path.join(vdir, os.path.basename(rel))
+                with open(vp, "w") as fd:
+                    fd.write(vsrc)
+                rcv, so, se = prun(cmd[:-1] + [vp], cwd=d5, env=dict(base_env()), timeout=600)
+                rc, so, se = prun(cmd, cwd=d5, env=dict(base_env()), timeout=600)
+                if rc != 0:
+                    if "unmatched library" in so + se or "can't merge description" in so + se:
+                        classes.append("stale_variant.library_conflict")
+                    else:
+                        return Result(False, "C36.stale_variant.exit_status", "%s: exit 0 in a fresh directory, %d after a variant of the same file (variant %d, exit %d): %s" % (
+                            cmd[1:], rc, c["variant"], rcv, (so + se)[-300:]))
+                else:
+                    mine = [n for n in b["tree"] if n != os.path.join("src", "targets.lst")]
+                    df = tree_diff(b["tree"], tree(d5), b["dir"], d5, only=mine)
+                    if df:
+                        return Result(False, "C36.stale_variant.differs", "%s: generated after a variant of the same file (variant %d, exit %d): %s" % (
+                            cmd[1:], c["variant"], rcv, df[:4]))
+                    classes.append("stale_variant.%s" % ("variant_ok" if rcv == 0 else "variant_fails"))
         src = open(os.path.join(REPO, rel), errors="replace").read()
         nfiles = len(b["tree"])
         nt = ok_base and (nfiles >= 5 or re.search(r"@(Import|MaterialLaw|Model)\b", src) is not None)
@@ -336,10 +396,14 @@ def strategies(files):
         "timeshift": st.sampled_from([0, 1, 61, 86400 * 3 + 7, 86400 * 400, -86400 * 4000]),
         "extra": st.lists(var, max_size=5, unique_by=lambda x: x[0]).map(lambda l: [list(x) for x in l]),
         "rot": st.integers(0, 7)})
-    return st.sampled_from(files).flatmap(lambda f: st.fixed_dictionaries({
+    # inputs that make the generator write auxiliary files of their own (slip systems header/implementation): 12 of 722
+    # files, drawn one case in eight so that every quick run holds some
+    aux = [f for f in files if re.search(r"@(SlidingSystems?|SlipSystems?|GlidingSystems?|CrystalStructure)\b", src_text(f))]
+    pick = st.sampled_from(files) if not aux else st.one_of(*([st.sampled_from(files)] * 7 + [st.sampled_from(aux)]))
+    return pick.flatmap(lambda f: st.fixed_dictionaries({
         "file": st.just(f), "ifaces": ifaces_for(f), "opts": opts,
         "others": st.lists(st.sampled_from(files), min_size=1, max_size=3, unique=True),
-        "env": env, "depth": st.integers(0, 3)}))
+        "env": env, "depth": st.integers(0, 3), "variant": st.integers(0, 7)}))
 
 
 def sweep_cases(files, nshards, shard):
@@ -357,7 +421,7 @@ def sweep_cases(files, nshards, shard):
                        "TZ": rnd.choice(["Pacific/Kiritimati", "America/New_York", ""]), "HOME": rnd.choice(["missing", "other", "unset"]),
                        "TMPDIR": None, "USER": None, "timeshift": rnd.choice([61, 86400 * 400, -86400 * 4000]),
                        "extra": [["VERIF_ZZ", "1"], ["AAA_FIRST", "a b"]][:rnd.randint(0, 2)], "rot": rnd.randint(0, 7)},
-               "depth": rnd.randint(0, 3)}
+               "depth": rnd.randint(0, 3), "variant": rnd.randint(0, 7)}
 
 
 CHECKS = {"hyp": check_case, "sweep": check_case}
